@@ -180,6 +180,20 @@ func touchesShared(st ast.Stmt) bool {
 		exprs = append(exprs, st)
 	}
 	found := false
+	// a write through a slice or map element (results[i] = v) reaches memory other threads may
+	// read even when no selector or call appears in the statement
+	switch x := st.(type) {
+	case *ast.AssignStmt:
+		for _, l := range x.Lhs {
+			if _, ok := l.(*ast.IndexExpr); ok {
+				return true
+			}
+		}
+	case *ast.IncDecStmt:
+		if _, ok := x.X.(*ast.IndexExpr); ok {
+			return true
+		}
+	}
 	for _, e := range exprs {
 		ast.Inspect(e, func(n ast.Node) bool {
 			switch y := n.(type) {
